@@ -29,6 +29,14 @@ def lane(name, q, t, per_budget=False):
     return mk
 
 
+def SMALL(pid):
+    return ("small", lane("smallscope", {"prop": pid, "depth": 6}, {"prop": pid, "depth": 7}))
+
+
+SMALLRULE = ("; small lane: ALL sequences of applicable operations to depth 6 (thorough: 7) after a fixed first stake, over a 16-symbol state-dependent alphabet "
+             "(two stakers, one staking to the native chain; partial/full unstake; submit at the due time; exact and short delivery at the unbonding end; withdrawals; "
+             "reward; ack/error/timeout of the oldest or newest outstanding packet; default and receiver-directed recovery), two configurations, by DFS on clones with this property's monitor after every step")
+
 HRULE = ("random configuration + directed prologue + state-aware random operations (users, operator bot and impostors, relayer with all IBC outcomes, "
          "stray acks, injected submission failures, admin/config changes, clock jumps to deadlines -1/0/+1); a case = one monitored transaction; distinct = "
          "distinct (operation kind, outcome, abstract state) triples on which this property's monitor evaluated a non-vacuous assertion")
@@ -36,54 +44,54 @@ HRULE = ("random configuration + directed prologue + state-aware random operatio
 CHECKS = {
     "C01": {
         "level": "exploration", "builds": ["default", "miniwasm"], "all_lanes_both": True,
-        "lanes": [("hist", hist("C01"))],
-        "rule": HRULE + "; abstract state = rate regime x batch-status counts x packet-status counts x stopped/treasury/oracle",
-        "require": ["op:liquid_stake:ok", "op:hook:receive_rewards:ok", "op:submit_batch:ok", "op:relay:ack:ok", "op:relay:err:ok", "op:relay:timeout:ok", "op:recover_pending_ibc_transfers:ok", "op:resume_contract:ok"],
+        "lanes": [("hist", hist("C01")), SMALL("C01")],
+        "rule": HRULE + "; abstract state = rate regime x batch-status counts x packet-status counts x stopped/treasury/oracle" + SMALLRULE,
+        "require": ["smallscope:sequences", "op:liquid_stake:ok", "op:hook:receive_rewards:ok", "op:submit_batch:ok", "op:relay:ack:ok", "op:relay:err:ok", "op:relay:timeout:ok", "op:recover_pending_ibc_transfers:ok", "op:resume_contract:ok"],
         "assumptions": [SIM, HONEST, ZERO],
     },
     "C02": {
-        "level": "exploration", "lanes": [("hist", hist("C02"))],
-        "rule": HRULE,
-        "require": ["op:withdraw:ok", "op:fee_withdraw:ok", "op:hook:receive_unstaked_tokens:ok", "op:recover_pending_ibc_transfers:ok", "op:relay:err:ok", "op:relay:timeout:ok"],
+        "level": "exploration", "lanes": [("hist", hist("C02")), SMALL("C02")],
+        "rule": HRULE + SMALLRULE,
+        "require": ["smallscope:sequences", "op:withdraw:ok", "op:fee_withdraw:ok", "op:hook:receive_unstaked_tokens:ok", "op:recover_pending_ibc_transfers:ok", "op:relay:err:ok", "op:relay:timeout:ok"],
         "assumptions": [SIM, HONEST, ZERO, "fees swept from ownerless stake are not backed by contract-held tokens and are excluded from the fee entitlement"],
     },
     "C03": {
         "level": "exploration", "builds": ["default", "miniwasm"], "all_lanes_both": True,
-        "lanes": [("hist", hist("C03"))],
-        "rule": HRULE + "; stakes are additionally keyed by (rate regime, destination chain, equal-prefix configuration)",
-        "require": ["stake_native:above", "stake_native:below", "stake_native:par", "stake_proto:above", "stake_proto:below", "stake_proto:par", "op:submit_batch:ok"],
+        "lanes": [("hist", hist("C03")), SMALL("C03")],
+        "rule": HRULE + "; stakes are additionally keyed by (rate regime, destination chain, equal-prefix configuration)" + SMALLRULE,
+        "require": ["smallscope:sequences", "stake_native:above", "stake_native:below", "stake_native:par", "stake_proto:above", "stake_proto:below", "stake_proto:par", "op:submit_batch:ok"],
         "assumptions": [SIM, HONEST],
     },
     "C05": {
         "level": "exploration",
-        "lanes": [("perm", lane("c05perm", {"n": 6}, {"n": 8})), ("hist", hist("C05"))],
-        "rule": "perm lane: batches of 1..n requesters built through LiquidUnstake (uneven shares, one repeated request), 6 delivery sizes (1, expected-1, expected, expected+1, 10x, 3), ALL n! withdrawal orders with interleaved noise (foreign and double withdrawals, a stake, a reward); every payout compared with floor(received*own/total) and across orders. hist lane: " + HRULE + "; withdrawals keyed by (delivery short/exact/long, requesters in batch)",
-        "require": ["op:withdraw:ok", "withdraw_refused_no_claim", "unstake_request", "c05perm:orders"],
+        "lanes": [("perm", lane("c05perm", {"n": 6}, {"n": 8})), ("hist", hist("C05")), SMALL("C05")],
+        "rule": "perm lane: batches of 1..n requesters built through LiquidUnstake (uneven shares, one repeated request), 6 delivery sizes (1, expected-1, expected, expected+1, 10x, 3), ALL n! withdrawal orders with interleaved noise (foreign and double withdrawals, a stake, a reward); every payout compared with floor(received*own/total) and across orders. hist lane: " + HRULE + "; withdrawals keyed by (delivery short/exact/long, requesters in batch)" + SMALLRULE,
+        "require": ["smallscope:sequences", "op:withdraw:ok", "withdraw_refused_no_claim", "unstake_request", "c05perm:orders"],
         "assumptions": [SIM, "batch total equals the sum of requests ever made (a request is deleted when paid)"],
     },
     "C06": {
-        "level": "exploration", "lanes": [("hist", hist("C06"))],
-        "rule": HRULE + "; submissions keyed by (clock relative to due time in {<-1,-1,0,+1,>+1}, non-empty, stopped, outcome), receipts by clock relative to the unbonding end",
-        "require": ["op:submit_batch:ok", "op:submit_batch:fail", "op:hook:receive_unstaked_tokens:ok", "op:hook:receive_unstaked_tokens:fail"],
+        "level": "exploration", "lanes": [("hist", hist("C06")), SMALL("C06")],
+        "rule": HRULE + "; submissions keyed by (clock relative to due time in {<-1,-1,0,+1,>+1}, non-empty, stopped, outcome), receipts by clock relative to the unbonding end" + SMALLRULE,
+        "require": ["smallscope:sequences", "op:submit_batch:ok", "op:submit_batch:fail", "op:hook:receive_unstaked_tokens:ok", "op:hook:receive_unstaked_tokens:fail"],
         "assumptions": [SIM],
     },
     "C07": {
         "level": "fault_enumeration", "exhaustive": True,
-        "lanes": [("enum", lane("c07enum", {"k": 4}, {"k": 5})), ("hist", hist("C07"))],
-        "rule": "enum lane (exhaustive for its bounded space): for every composition of up to k outstanding packets (two denoms; receivers staker / A / B / staker-with-both-denoms) ALL assignments of {success ack, error ack, timeout} x ALL delivery orders x {recovery or duplicate ack after each delivery} x 4 final recovery flavours (receiver-directed, paginated, default, admin-forced), by DFS on world clones with the packet-history monitors evaluated after every step and an end-state check (queue empty, nothing refundable left). hist lane: " + HRULE + "; relay outcomes, recoveries keyed by (forced, paginated, receiver-directed, packets consumed, denom), stray acks, injected submission failures",
-        "require": ["op:relay:ack:ok", "op:relay:err:ok", "op:relay:timeout:ok", "op:recover_pending_ibc_transfers:ok", "op:sudo:ok", "c07enum:leaves"],
+        "lanes": [("enum", lane("c07enum", {"k": 4}, {"k": 5})), ("hist", hist("C07")), SMALL("C07")],
+        "rule": "enum lane (exhaustive for its bounded space): for every composition of up to k outstanding packets (two denoms; receivers staker / A / B / staker-with-both-denoms) ALL assignments of {success ack, error ack, timeout} x ALL delivery orders x {recovery or duplicate ack after each delivery} x 4 final recovery flavours (receiver-directed, paginated, default, admin-forced), by DFS on world clones with the packet-history monitors evaluated after every step and an end-state check (queue empty, nothing refundable left). hist lane: " + HRULE + "; relay outcomes, recoveries keyed by (forced, paginated, receiver-directed, packets consumed, denom), stray acks, injected submission failures" + SMALLRULE,
+        "require": ["smallscope:sequences", "op:relay:ack:ok", "op:relay:err:ok", "op:relay:timeout:ok", "op:recover_pending_ibc_transfers:ok", "op:sudo:ok", "c07enum:leaves"],
         "assumptions": [SIM, HONEST, "a packet receives exactly one of ack / timeout"],
     },
     "C11": {
-        "level": "exploration", "lanes": [("hist", hist("C11"))],
-        "rule": HRULE + "; rewards keyed by (fee rate, treasury configured, outcome, LST exists), fee withdrawals by (outcome, treasury, amount below/at/above accrued)",
-        "require": ["op:hook:receive_rewards:ok", "op:hook:receive_rewards:fail", "op:fee_withdraw:ok", "op:fee_withdraw:fail"],
+        "level": "exploration", "lanes": [("hist", hist("C11")), SMALL("C11")],
+        "rule": HRULE + "; rewards keyed by (fee rate, treasury configured, outcome, LST exists), fee withdrawals by (outcome, treasury, amount below/at/above accrued)" + SMALLRULE,
+        "require": ["smallscope:sequences", "op:hook:receive_rewards:ok", "op:hook:receive_rewards:fail", "op:fee_withdraw:ok", "op:fee_withdraw:fail"],
         "assumptions": [SIM, ZERO],
     },
     "C15": {
-        "level": "exploration", "lanes": [("optional", lane("c15diff", {"histories": 12, "steps": 200}, {"histories": 100000000, "steps": 600})), ("hist", hist("C15"))],
-        "rule": "optional lane: the same operation trace (prologue + random) is applied to two deployments that differ only in oracle_address (Some / None); outcome, totals, batches, queue, all ledgers and all effects other than the oracle call must agree step by step, and the oracle-less deployment must dispatch no contract call. hist lane: " + HRULE + "; oracle posts keyed by (operation, rate regime before, rate regime after), with and without an oracle",
-        "require": ["op:liquid_stake:ok", "op:submit_batch:ok", "op:hook:receive_rewards:ok", "op:resume_contract:ok", "c15diff:histories"],
+        "level": "exploration", "lanes": [("optional", lane("c15diff", {"histories": 12, "steps": 200}, {"histories": 100000000, "steps": 600})), ("hist", hist("C15")), SMALL("C15")],
+        "rule": "optional lane: the same operation trace (prologue + random) is applied to two deployments that differ only in oracle_address (Some / None); outcome, totals, batches, queue, all ledgers and all effects other than the oracle call must agree step by step, and the oracle-less deployment must dispatch no contract call. hist lane: " + HRULE + "; oracle posts keyed by (operation, rate regime before, rate regime after), with and without an oracle" + SMALLRULE,
+        "require": ["smallscope:sequences", "op:liquid_stake:ok", "op:submit_batch:ok", "op:hook:receive_rewards:ok", "op:resume_contract:ok", "c15diff:histories"],
         "assumptions": [SIM],
     },
     "C04": {
